@@ -242,6 +242,22 @@ fn run_eq<T: CellT + Hash>(case: &Value) -> Vec<Fail> {
             fails.push(Fail::new(0, "hash", json!({"a": case["a"], "b": case["b"]})));
         }
     }
+    // equal arrays hash equally also when the elements' equality is not byte identity (case-insensitive letters)
+    {
+        use crate::cells::Ci8;
+        let nc = get_u64(&case["a"], "nc") as usize;
+        let nr = get_u64(&case["a"], "nr") as usize;
+        let lower: TooDee<Ci8> = TooDee::from_vec(nc, nr, (0..nc * nr).map(|i| Ci8(b'a' + (i % 26) as u8)).collect());
+        let upper: TooDee<Ci8> = TooDee::from_vec(nc, nr, (0..nc * nr).map(|i| Ci8(b'A' + (i % 26) as u8)).collect());
+        let mut h1 = std::collections::hash_map::DefaultHasher::new();
+        let mut h2 = std::collections::hash_map::DefaultHasher::new();
+        lower.hash(&mut h1);
+        upper.hash(&mut h2);
+        if lower != upper || h1.finish() != h2.finish() {
+            fails.push(Fail::new(0, "hash", json!({"a": case["a"], "note": "arrays of case-insensitive letters: equal, yet eq / hash disagree",
+                "eq": lower == upper})));
+        }
+    }
     // clone: equal and independent
     let mut c = a.clone();
     if c != a {
